@@ -395,7 +395,7 @@ where
     #[inline(always)]
     #[must_use]
     pub fn rank_prefetch(&self, symbol: T, i: usize) -> Option<usize> {
-        if i > self.n || symbol > self.sigma {
+        if self.n == 0 || i > self.n || symbol > self.sigma {
             return None;
         }
 
@@ -532,7 +532,7 @@ where
     #[must_use]
     #[inline(always)]
     fn rank(&self, symbol: Self::Item, i: usize) -> Option<usize> {
-        if i > self.n || symbol > self.sigma {
+        if self.n == 0 || i > self.n || symbol > self.sigma {
             return None;
         }
 
@@ -700,7 +700,7 @@ where
     #[must_use]
     #[inline(always)]
     fn select(&self, symbol: Self::Item, i: usize) -> Option<usize> {
-        if symbol > self.sigma {
+        if self.n == 0 || symbol > self.sigma {
             return None;
         }
 
